@@ -240,3 +240,54 @@ def split_batches(rng, rows, k):
         out.append(rows[prev:c])
         prev = c
     return out
+
+
+def gen_art2a_kernel(rng):
+    beta = rng.choice([Fraction(1), Fraction(1, 2), Fraction(3, 4), Fraction(1, 4)])
+    alpha = rng.choice([Fraction(0), Fraction(1, 8), Fraction(1, 4), Fraction(1, 2)])
+    rho = Fraction(rng.randrange(0, 9), 8)
+    return {"kind": "ART2A", "rho": rho, "alpha": alpha, "beta": beta}
+
+
+def gen_art1_kernel(rng):
+    return {"kind": "ART1", "rho": Fraction(rng.randrange(0, 9), 8), "L": rng.choice([Fraction(1), Fraction(2), Fraction(3, 2)])}
+
+
+def gen_kernel_and_rows(rng, kind, nmax=15):
+    """kernel parameters plus a tie-/duplicate-heavy data set the kernel's validation accepts"""
+    if kind == "Fuzzy":
+        k = gen_fuzzy_kernel(rng)
+        d = rng.choice([1, 2, 2, 3])
+        n = rng.randrange(2, nmax if k["beta"] != Fraction(3, 4) else min(nmax, 9))
+        return k, grid_rows(rng, n, d)
+    if kind == "ART2A":
+        k = gen_art2a_kernel(rng)
+        d = rng.choice([1, 2, 3, 4])
+        while k["alpha"] * k["alpha"] * d > 1:
+            d -= 1
+        n = rng.randrange(2, nmax if k["beta"] in (Fraction(1), Fraction(1, 2)) else min(nmax, 9))
+        return k, grid_rows(rng, n, d, cc=False)
+    if kind == "ART1":
+        k = gen_art1_kernel(rng)
+        d = rng.randrange(2, 9)
+        n = rng.randrange(2, nmax)
+        pool = [[Fraction(rng.randrange(0, 2)) for _ in range(d)] for _ in range(rng.choice([2, 3, 4, 6]))]
+        rows = []
+        for _ in range(n):
+            r = list(rng.choice(pool))
+            if rng.random() < 0.2:
+                j = rng.randrange(d); r[j] = 1 - r[j]
+            if not any(r):
+                r[rng.randrange(d)] = Fraction(1)      # non-zero rows: the quantifier's standing assumption
+            rows.append(r)
+        if k["rho"] == 0 and k["L"] == 1:
+            k["L"] = Fraction(2)
+        return k, rows
+    raise ValueError(kind)
+
+
+def summary(k, ops):
+    """JSON-able description of a case (also the replay)"""
+    return {"estimator": {kk: str(vv) for kk, vv in k.items()},
+            "ops": [{"op": o["op"], "mode": o.get("mode"), "eps": str(o.get("eps")), "veto": o.get("veto"),
+                     "X": [[str(v) for v in r] for r in o["X"]]} for o in ops]}
